@@ -163,9 +163,11 @@ class ModelCoercerProvider(CoercerProvider):
                     ),
                 )
             except CannotProvide as e:
+                if e.is_terminal:
+                    # a linking is configured for this field, but it cannot be built
+                    raise
                 if dst_field.is_required:
-                    if not e.is_terminal:
-                        add_note(e, "Note: This is a required field, so it must take value")
+                    add_note(e, "Note: This is a required field, so it must take value")
                     raise
 
                 policy = mediator.mandatory_provide(
